@@ -2,6 +2,8 @@ package vrt
 
 import (
 	"cmp"
+	"fmt"
+	"os"
 	"reflect"
 	"sort"
 )
@@ -101,4 +103,23 @@ func MapRead(m interface{}) {
 	mapReaders[k][t]++
 	r.point(&Op{Kind: KYield, Label: "map-read"})
 	mapReaders[k][t]--
+}
+
+// hits counts block executions in coverage builds (vinstr -cov, a
+// development aid: tools/coverage.sh).
+var hits = map[string]int{}
+
+// Hit records one execution of an instrumented block.
+func Hit(id string) { hits[id]++ }
+
+// DumpHits writes the counters to dir/hits-<pid>.txt.
+func DumpHits(dir string) {
+	if dir == "" || len(hits) == 0 {
+		return
+	}
+	var b []byte
+	for id, n := range hits {
+		b = append(b, fmt.Sprintf("%d\t%s\n", n, id)...)
+	}
+	os.WriteFile(fmt.Sprintf("%s/hits-%d.txt", dir, os.Getpid()), b, 0o644)
 }
